@@ -30,6 +30,10 @@ def main():
         return 2
     out = {}
     saved = {}
+    before = {}
+    for p in props:
+        rd = os.path.join(V, 'replays', p)
+        before[p] = set(os.listdir(rd)) if os.path.isdir(rd) else set()
     for p in props:     # the evidence of a run against a seeded change must not replace the evidence of the real tree
         ev = os.path.join(V, 'evidence', p + '.json')
         saved[p] = open(ev).read() if os.path.exists(ev) else None
@@ -50,8 +54,14 @@ def main():
     finally:
         sh('git -C %s checkout -q -- .' % WT)
         # remove replays written for the mutant so they are not mistaken for findings on the real tree
-        for p in props:
-            sh('rm -rf %s/replays/%s' % (V, p))
+        for p in props:     # remove only the replay files this run wrote (another run may be using the directory)
+            rd = os.path.join(V, 'replays', p)
+            for fn in (os.listdir(rd) if os.path.isdir(rd) else []):
+                if fn not in before.get(p, set()):
+                    try:
+                        os.unlink(os.path.join(rd, fn))
+                    except OSError:
+                        pass
             ev = os.path.join(V, 'evidence', p + '.json')
             if saved.get(p) is not None:
                 open(ev, 'w').write(saved[p])
